@@ -270,7 +270,23 @@ class C04(Check):
                 self.undecided_ob("T2", rel, q, "success-return", fn, "no success return recognised")
                 continue
             problems = []
+            # a finally block that writes (t0, y0) runs after every return inside its try: whatever the success path advanced is overwritten
+            rewound = set()
+            for tr in ast.walk(fn):
+                if isinstance(tr, ast.Try) and tr.finalbody:
+                    writes = [t_ for s_ in tr.finalbody for a_ in ast.walk(s_) if isinstance(a_, (ast.Assign, ast.AugAssign))
+                              for t0_ in (a_.targets if isinstance(a_, ast.Assign) else [a_.target]) for t_ in ast.walk(t0_) if is_self_attr(t_, "t0") or is_self_attr(t_, "y0")]
+                    if writes:
+                        for s_ in tr.body:
+                            for r_ in ast.walk(s_):
+                                if isinstance(r_, ast.Return):
+                                    rewound.add(id(r_))
             for st, node, advanced in ii.success_returns:
+                if id(node) in rewound:
+                    problems.append(("state-rewound-in-finally", node,
+                                     "the course is returned from inside a try whose finally block writes (t0, y0): the state the integration reached is overwritten "
+                                     "on the successful path as well, so the next call continues from where this one started"))
+                    continue
                 if st.reset:
                     problems.append(("starts-from-reset", node,
                                      "the method resets the integrator to its ORIGINAL state before integrating: it does not "
